@@ -13,7 +13,7 @@ def check(run):
     quick = run.tier == "quick"
     zkh = run.harness()
     seeds = [b"", b"\x00", bytes(range(10)), b"A seed phrase example", bytes(135), bytes(136), bytes(137), bytes(272), bytes([0xff]) * 33]
-    seeds += [bytes(rng.getrandbits(8) for _ in range(rng.choice([1, 2, 31, 32, 33, 64, 100, 200]))) for _ in range(12 if quick else 300)]
+    seeds += [bytes(rng.getrandbits(8) for _ in range(rng.choice([1, 2, 31, 32, 33, 64, 100, 200]))) for _ in range(60 if quick else 600)]
     if not quick:
         seeds.append(bytes(rng.getrandbits(8) for _ in range(10000)))
     seqs = []
